@@ -163,6 +163,11 @@ fn peel<'tcx>(tcx: TyCtxt<'tcx>, mut t: Ty<'tcx>, peeled: &mut Vec<String>) -> T
                 continue;
             }
         }
+        if let ty::RawPtr(inner, _) = t.kind() {
+            peeled.push("rawptr".to_string());
+            t = *inner;
+            continue;
+        }
         return t;
     }
 }
